@@ -44,7 +44,7 @@ func (s *racySink) Write(p []byte) (int, error) {
 	s.last = append(s.last[:0], p...)
 	return len(p), nil
 }
-func (s *racySink) Sync() error { s.syncs++; return nil }
+func (s *racySink) Sync() error { s.syncs++; s.n += 0; return nil }
 
 // hclock: system time, harness-owned tick channels.
 type hclock struct {
